@@ -18,6 +18,24 @@ pub enum ErrKind {
     Status(Code, String),
     Io(std::io::ErrorKind),
     H2(u32),
+    /// a `Status` (with details and metadata) that is not the error itself but sits behind
+    /// `Error::source()` of 1..3 wrapper errors, as a tower layer or a transport would hand it over
+    Nested(crate::gen::StatusSpec, u8),
+}
+
+#[derive(Debug)]
+pub struct WrapperError(pub BoxError);
+
+impl std::fmt::Display for WrapperError {
+    fn fmt(&self, f: &mut std::fmt::Formatter<'_>) -> std::fmt::Result {
+        write!(f, "wrapper error")
+    }
+}
+
+impl std::error::Error for WrapperError {
+    fn source(&self) -> Option<&(dyn std::error::Error + 'static)> {
+        Some(&*self.0)
+    }
 }
 
 impl ErrKind {
@@ -26,6 +44,13 @@ impl ErrKind {
             ErrKind::Status(c, m) => Box::new(Status::new(*c, m.clone())),
             ErrKind::Io(k) => Box::new(std::io::Error::new(*k, "simulated io error")),
             ErrKind::H2(r) => Box::new(h2::Error::from(h2::Reason::from(*r))),
+            ErrKind::Nested(spec, depth) => {
+                let mut e: BoxError = Box::new(spec.build());
+                for _ in 0..*depth {
+                    e = Box::new(WrapperError(e));
+                }
+                e
+            }
         }
     }
     pub fn draw(sim: &Sim) -> ErrKind {
@@ -142,6 +167,9 @@ impl Body for Segmented {
     fn is_end_stream(&self) -> bool {
         self.inner.is_end_stream()
     }
+    fn size_hint(&self) -> http_body::SizeHint {
+        self.inner.size_hint()
+    }
 }
 
 /// Scripted `http_body::Body`.
@@ -154,6 +182,19 @@ pub struct SimBody {
     end_hint: bool,
     name: &'static str,
     consec_pending: u32,
+    hint: SizeHint,
+}
+
+/// What the scripted body answers to `size_hint()` (over hyper: the peer-supplied content-length,
+/// available before any DATA frame and not bounded by anything).
+#[derive(Clone, Copy, Debug, PartialEq, Eq)]
+pub enum SizeHint {
+    /// the default: nothing known
+    Unknown,
+    /// exactly the number of DATA bytes still to come
+    ExactTrue,
+    /// an exact length the peer merely announces
+    Announced(u64),
 }
 
 /// No seam returns Pending more than this many times in a row (keeps replays of exhausted tapes,
@@ -171,7 +212,12 @@ impl SimBody {
             end_hint,
             name,
             consec_pending: 0,
+            hint: SizeHint::Unknown,
         }
+    }
+    pub fn with_size_hint(mut self, hint: SizeHint) -> SimBody {
+        self.hint = hint;
+        self
     }
 }
 
@@ -234,6 +280,14 @@ impl Body for SimBody {
 
     fn is_end_stream(&self) -> bool {
         self.end_hint && !self.ended && self.evs.is_empty()
+    }
+
+    fn size_hint(&self) -> http_body::SizeHint {
+        match self.hint {
+            SizeHint::Unknown => http_body::SizeHint::default(),
+            SizeHint::ExactTrue => http_body::SizeHint::with_exact(self.evs.iter().map(|e| if let Ev::Data(b) = e { b.len() as u64 } else { 0 }).sum()),
+            SizeHint::Announced(n) => http_body::SizeHint::with_exact(n),
+        }
     }
 }
 
